@@ -13,6 +13,14 @@ SPACE = {"open:w", "os.open:w", "f.write", "f.writelines", "f.flush", "f.close",
          "sendfile"}
 
 
+def make_oserror(code, text, ev):
+    """As the platform reports it: an error of a PATH-based call carries the path (`filename`), an error of a descriptor-based
+    call - write / flush / close of an open file, flock, sendfile - carries none (`filename` is None)."""
+    if ev.kind.startswith("f.") or ev.kind in ("flock", "os.write", "sendfile", "copy_file_range"):
+        return OSError(code, text)
+    return OSError(code, text, ev.dest)
+
+
 def is_site(ev):
     """Mutating operations and opens (for reading or writing) are fault sites; stat-class probes are not."""
     return not ev.is_probe
@@ -33,7 +41,7 @@ class Injector:
 
     def _raise(self, ev):
         code = ERRNOS[self.errno_name]
-        raise OSError(code, os.strerror(code) + " [injected]", ev.dest)
+        raise make_oserror(code, os.strerror(code) + " [injected]", ev)
 
     def after(self, ev):
         """fsi 'after_path_op' hook: mode "late" lets the k-th rename / replace / link TAKE EFFECT and then reports EIO."""
